@@ -423,7 +423,7 @@ def run_exchange(c):
 def cases_lag(tier):
     out = []
     designs = ['d2', 'd3'] if tier == 'quick' else ['d2', 'd3', 'd4', 'b3']
-    ducts = ['1', '2f'] if tier == 'quick' else ['1', '2f', '2s', '3']
+    ducts = ['1', '2f', '2s'] if tier == 'quick' else ['1', '2f', '2s', '3']
     for d in designs:
         for du in ducts:
             for re in (('turb',) if tier == 'quick' else ('lam', 'turb')):
